@@ -584,3 +584,212 @@ def variant_edges(body, local_or_place, at_from=None):
         if t["t"] == "sw" and op_local(t["d"]) in disc:
             out.append((bb, {v: x for v, x in t["targets"]}, t["else"]))
     return out
+
+
+# ------------------------------------------------------------------ guard evaluator (K9)
+
+def _bool_taint(body, seeds):
+    """locals whose (bool) value is computed from the seed locals through Use/Not/bit-ops, or that are
+    assigned constants alongside such values (short-circuit temporaries)"""
+    t = set(seeds)
+    changed = True
+    while changed:
+        changed = False
+        for bl in body.blocks:
+            for s in bl["s"]:
+                if s[0] != "A" or len(s[1]) != 1:
+                    continue
+                d = s[1][0]
+                if d in t:
+                    continue
+                rv = s[2]
+                if rv[0] in ("use", "un", "bin", "cast"):
+                    for op in rvalue_operands(rv):
+                        p = op_place(op)
+                        if p is not None and len(p) == 1 and p[0] in t:
+                            t.add(d)
+                            changed = True
+                            break
+    # short-circuit temporaries: bool locals assigned right after a switch on a tracked local
+    # (`a && b` lowers to: switch a { false => tmp = false, true => tmp = b })
+    grew = True
+    rounds = 0
+    while grew and rounds < 4:
+        grew = False
+        rounds += 1
+        for bb, bl in enumerate(body.blocks):
+            tm = bl["term"]
+            if tm["t"] != "sw" or op_local(tm["d"]) not in t:
+                continue
+            frontier = list(body.succ[bb])
+            seen = set(frontier)
+            depth = 0
+            while frontier and depth < 3:
+                nxt = []
+                for x in frontier:
+                    for s in body.blocks[x]["s"]:
+                        if s[0] == "A" and len(s[1]) == 1 and body.ty(s[1][0]) == "bool" and s[1][0] not in t:
+                            t.add(s[1][0])
+                            grew = True
+                    for y in body.succ[x]:
+                        if y not in seen and body.term(x)["t"] == "goto":
+                            seen.add(y)
+                            nxt.append(y)
+                frontier = nxt
+                depth += 1
+        if grew:
+            changed = True
+            while changed:
+                changed = False
+                for bl in body.blocks:
+                    for s in bl["s"]:
+                        if s[0] != "A" or len(s[1]) != 1 or s[1][0] in t:
+                            continue
+                        if s[2][0] in ("use", "un", "bin", "cast"):
+                            for op in rvalue_operands(s[2]):
+                                p = op_place(op)
+                                if p is not None and len(p) == 1 and p[0] in t:
+                                    t.add(s[1][0])
+                                    changed = True
+                                    break
+    return t
+
+
+def eval_guard(body, atom_vals, max_states=20000):
+    """Path-sensitive abstract walk of the CFG under a valuation of atom calls.
+
+    atom_vals: {bb_of_call: bool}  — the value returned by the (bool-returning) call terminating block bb.
+    Only bool locals derived from the atoms are tracked (finite state space). A SwitchInt on a tracked local
+    with a known value follows one edge; everything else follows all normal successors.
+    Returns (reachable_blocks, return_values) where return_values is the set of values of `_0` at `ret`
+    terminators: True / False / None (unknown).
+    """
+    seeds = set()
+    for bb in atom_vals:
+        t = body.term(bb)
+        if t["t"] == "call" and len(t["dest"]) == 1:
+            seeds.add(t["dest"][0])
+    tracked = _bool_taint(body, seeds)
+    reach = set()
+    rets = set()
+    seen = set()
+    stack = [(0, ())]
+    n = 0
+    while stack:
+        bb, envt = stack.pop()
+        if (bb, envt) in seen:
+            continue
+        seen.add((bb, envt))
+        n += 1
+        if n > max_states:
+            # give up precision: everything reachable
+            return body.live_blocks(), {None}
+        reach.add(bb)
+        env = dict(envt)
+        for s in body.blocks[bb]["s"]:
+            if s[0] == "A" and len(s[1]) == 1 and s[1][0] in tracked:
+                v = _eval_rv(s[2], env)
+                if v is None:
+                    env.pop(s[1][0], None)
+                else:
+                    env[s[1][0]] = v
+            elif s[0] == "A" and len(s[1]) == 1 and s[1][0] == 0 and s[2][0] == "use":
+                # return place of a bool closure
+                v = _eval_rv(s[2], env)
+                if v is None:
+                    env.pop(0, None)
+                else:
+                    env[0] = v
+        t = body.term(bb)
+        k = t["t"]
+        if k == "call":
+            d = t["dest"]
+            if bb in atom_vals and len(d) == 1:
+                env[d[0]] = atom_vals[bb]
+            elif len(d) == 1:
+                env.pop(d[0], None)
+            nxt = [t["tgt"]] if t.get("tgt") is not None else []
+        elif k == "sw":
+            l = op_local(t["d"])
+            p = op_place(t["d"])
+            nxt = None
+            if l is not None and len(p) == 1 and l in env:
+                v = 1 if env[l] else 0
+                m = {a: b for a, b in t["targets"]}
+                nxt = [m[v]] if v in m else [t["else"]]
+            else:
+                kk = op_const(t["d"])
+                if kk is not None and "v" in kk:
+                    m = {a: b for a, b in t["targets"]}
+                    nxt = [m[kk["v"]]] if kk["v"] in m else [t["else"]]
+            if nxt is None:
+                nxt = body.succ[bb]
+        elif k == "ret":
+            rets.add(env.get(0))
+            nxt = []
+        else:
+            nxt = body.succ[bb]
+        et = tuple(sorted(env.items()))
+        for s in nxt:
+            stack.append((s, et))
+    return reach, rets
+
+
+def _eval_rv(rv, env):
+    k = rv[0]
+
+    def val(op):
+        c = op_const(op)
+        if c is not None:
+            if c.get("t") == "bool" and "v" in c:
+                return bool(c["v"])
+            return None
+        p = op_place(op)
+        if p is not None and len(p) == 1:
+            return env.get(p[0])
+        return None
+
+    if k == "use":
+        return val(rv[1])
+    if k == "un" and rv[1] == "Not":
+        v = val(rv[2])
+        return None if v is None else (not v)
+    if k == "bin":
+        a, b = val(rv[2]), val(rv[3])
+        op = rv[1]
+        if op == "BitAnd":
+            if a is False or b is False:
+                return False
+            if a is True and b is True:
+                return True
+        elif op == "BitOr":
+            if a is True or b is True:
+                return True
+            if a is False and b is False:
+                return False
+        elif op == "Eq" and a is not None and b is not None:
+            return a == b
+        elif op in ("Ne", "BitXor") and a is not None and b is not None:
+            return a != b
+        return None
+    return None
+
+
+def effect_truth_table(body, atoms, effect_blocks):
+    """atoms: list of call blocks (bool-returning calls). Returns {valuation tuple: bool effect reachable}"""
+    import itertools
+    out = {}
+    for vals in itertools.product((False, True), repeat=len(atoms)):
+        reach, _ = eval_guard(body, dict(zip(atoms, vals)))
+        out[vals] = any(e in reach for e in effect_blocks)
+    return out
+
+
+def return_truth_table(body, atoms):
+    """for a bool-returning body: {valuation: set of possible return values}"""
+    import itertools
+    out = {}
+    for vals in itertools.product((False, True), repeat=len(atoms)):
+        _, rets = eval_guard(body, dict(zip(atoms, vals)))
+        out[vals] = rets
+    return out
